@@ -32,6 +32,22 @@ Theorem C06_removed_only_owned :
         (memN (nfstate n) volatile_states = true \/ nfhash n = Some h0 \/ false = true).
 Proof. exact removed_only_owned_finalize. Qed.
 
+(* The same for `stepup clean` (selection logic and state filter regenerated from clean.py), with
+   the --unsafe exception; without --commit nothing is removed at all. *)
+Theorem C06_removed_only_owned_clean :
+  forall g a trs f ever,
+    (forall n, In n (gnodes g) -> nkind n = KFILE -> is_output_role (nfstate n) = true -> In (nlabel n) ever) ->
+    forall p, In p (k_files (clean_tool g a trs f)) ->
+      exists n h0, In n (gnodes g) /\ nkind n = KFILE /\ nlabel n = p /\
+        In p ever /\ memN (nfstate n) static_states = false /\ is_output_role (nfstate n) = true /\
+        fs_get f p = Some (FFile h0) /\
+        (memN (nfstate n) volatile_states = true \/ nfhash n = Some h0 \/ negb (a_safe a) = true).
+Proof. exact removed_only_owned_clean. Qed.
+
+Theorem C06_clean_without_commit :
+  forall g a trs f, a_commit a = false -> k_files (clean_tool g a trs f) = [].
+Proof. exact clean_without_commit. Qed.
+
 (* A directory is only removed when it is empty: every removed directory was a directory, all that
    was below it was itself removed by the same cleanup (files: see above), nothing else vanishes and
    nothing is altered. *)
@@ -42,6 +58,14 @@ Theorem C06_dir_removed_only_if_empty :
     (forall p, fs_get f p <> None -> fs_get (s_fs r) p = None -> In p (s_files r) \/ In p (s_dirs r)) /\
     (forall p e, fs_get (s_fs r) p = Some e -> fs_get f p = Some e).
 Proof. exact dir_removed_only_if_empty_finalize. Qed.
+
+Theorem C06_dir_removed_only_if_empty_clean :
+  forall g a trs f, let r := clean_tool g a trs f in
+    (forall d, In d (k_dirs r) -> fs_get f d = Some FDir /\
+       forall p, under d p = true -> fs_get f p <> None -> In p (k_files r) \/ In p (k_dirs r)) /\
+    (forall p, fs_get f p <> None -> fs_get (k_fs r) p = None -> In p (k_files r) \/ In p (k_dirs r)) /\
+    (forall p e, fs_get (k_fs r) p = Some e -> fs_get f p = Some e).
+Proof. exact dir_removed_only_if_empty_clean. Qed.
 
 (* The primitive used for every directory removal (finalize and the clean tool alike). *)
 Theorem C06_rmdir_primitive :
@@ -66,6 +90,21 @@ Theorem C06_static_adoption_forgets_output_hash :
     memN (fr_state r') clean_select_states = false /\
     memN (fr_state r') bd_volatile_states = false /\ memN (fr_state r') bd_hashed_states = false.
 Proof. exact static_adoption_forgets_output_hash. Qed.
+
+(* D12 (finding): the directory rule above is all the code guarantees for directories. The stronger
+   statement "no removed directory is the root of a static tree that is still declared" is FALSE of
+   the faithful model: File.before_delete marks the parent of every deleted file node, including the
+   unused file of an attached static tree that Workflow.delete_detached detaches first. Witness:
+   tree data/ (attached), its file data/d1.txt (deleted by the user, no consumer left), a dropped
+   step with output o.txt; finalize removes o.txt and then the emptied, still declared data/. *)
+Definition C06_dirs_spare_attached_static_trees : Prop :=
+  forall c g f d t,
+    let r := finalize c (init_state g f) in
+    In d (s_dirs r) -> In t (gnodes (s_g r)) -> nkind t = KTREE -> ndet t = false -> nlabel t <> d ++ [SLASH].
+
+Theorem C06_dirs_spare_attached_static_trees_refuted :
+  mark_dir_skips_static_trees = false -> ~ C06_dirs_spare_attached_static_trees.
+Proof. exact dirs_spare_attached_static_trees_refuted. Qed.
 
 (* Non-vacuity: a dropped step with a regular output the user modified (kept), an unmodified one
    (removed, then its directory), a volatile one (removed whatever its content) and a static file. *)
